@@ -10,9 +10,10 @@ import G9.Driver.Frame
 import G9.Driver.Ufs
 import G9.Driver.Clnt
 import G9.Driver.Life
+import G9.Driver.FidLife
 open G9 G9.Driver
 
-def handlers : List (String → List String → Option String) := [wire, logger, srvseq, frames, ufs, clnt, life]
+def handlers : List (String → List String → Option String) := [wire, logger, srvseq, frames, ufs, clnt, life, fidlife]
 
 def answer (line : String) : String :=
   match (line.trimAscii.toString.splitOn " ").filter (· ≠ "") with
